@@ -99,8 +99,8 @@ class _Unsupported(Exception):
 
 def _eval_pred(b, value):
     """Evaluate a pure integer predicate body (`fn(&self) -> bool` over u8 / char: comparisons, range tests, `matches!`, boolean
-    connectives; no calls) on one concrete value of `*self`.  This is constant folding over a finite domain, not a run of a parser:
-    the accepted set of such a predicate is decided exactly by evaluating it on every value of u8, or on the break points of char."""
+    connectives; no calls) at one point of its domain.  This is constant folding of a decision table - one row per interval between
+    the constants the predicate mentions - not a run of a parser."""
     env = {1: ("ref", value)}
 
     def const(k):
@@ -188,16 +188,16 @@ def _eval_pred(b, value):
 
 
 def _accepted_set(b, kind, probe):
-    """The values of the domain accepted by predicate body `b`: all of u8, or - for char - the break points (every constant of the body
-    and its neighbours) plus `probe`; None if the body is not a pure comparison predicate (then the literal table is used)."""
+    """The values accepted by predicate body `b` among the break points of its domain (every constant the body mentions and its two
+    neighbours, the ends of the domain) plus `probe`: a predicate made of comparisons with constants is constant between break
+    points, so this decides its accepted set exactly.  None if the body is not such a predicate (then the literal table is used)."""
     try:
-        if kind == "u8":
-            return {chr(v) for v in range(256) if _eval_pred(b, v)}
-        pts = {0, 0x10FFFF} | {ord(c) for c in probe}
+        top = 0xFF if kind == "u8" else 0x10FFFF
+        pts = {0, top} | {ord(c) for c in probe if ord(c) <= top}
         for k, v in body_literals(b):
             if k in ("char", "u8") and isinstance(v, int):
                 pts |= {v - 1, v, v + 1}
-        pts = {p for p in pts if 0 <= p <= 0x10FFFF and not (0xD800 <= p <= 0xDFFF)}
+        pts = {p for p in pts if 0 <= p <= top and not (0xD800 <= p <= 0xDFFF)}
         return {chr(v) for v in pts if _eval_pred(b, v)}
     except (_Unsupported, KeyError, TypeError, ValueError):
         return None
